@@ -13,6 +13,7 @@ package main
 // Nothing changes for code without such helpers.
 
 import (
+	"fmt"
 	"go/types"
 	"unicode"
 
@@ -339,4 +340,39 @@ func (c *Ctx) callsToDeep(fn, target *ssa.Function) []ssa.CallInstruction {
 		out = append(out, c.callsTo(h, target)...)
 	}
 	return out
+}
+
+// rootClassDeep: rootClass of v in its own function; a class "p<i>" of a private helper is the class of the
+// argument at the helper's call site.
+func (c *Ctx) rootClassDeep(v ssa.Value) string {
+	fn := valueFn(v)
+	if fn == nil {
+		return "unknown"
+	}
+	cl := c.rootClass(fn, v)
+	for d := 0; d < 4; d++ {
+		var idx int
+		if n, _ := fmt.Sscanf(cl, "p%d", &idx); n != 1 {
+			return cl
+		}
+		h := helperOf(fn)
+		if h == nil || len(h.sites) != 1 || fn.Parent() != nil || idx >= len(h.site.Common().Args) {
+			return cl
+		}
+		fn = h.site.Parent()
+		cl = c.rootClass(fn, h.site.Common().Args[idx])
+	}
+	return cl
+}
+
+func valueFn(v ssa.Value) *ssa.Function {
+	switch x := v.(type) {
+	case ssa.Instruction:
+		return x.Parent()
+	case *ssa.Parameter:
+		return x.Parent()
+	case *ssa.FreeVar:
+		return x.Parent()
+	}
+	return nil
 }
